@@ -60,7 +60,7 @@ def judge(c, res):
     nbusy = sum(len(v) for (kind, k), v in sched['busy'].items() if k < need)
     with env.scratch_dir('bbv-c18-') as d:
         # (round 9) the device id is a pair of hexadecimal numbers: one run in three writes its letters in upper case
-        r = _dfu.run(c['pages'], fw, sched, d, symlink=c.get('symlink', False), device_id='28E9:0189' if c['sched_seed'] % 3 == 0 else '28e9:0189')
+        r = _dfu.run(c['pages'], fw, sched, d, symlink=('dotdot' if c['sched_seed'] % 2 == 0 else True) if c.get('symlink', False) else False, device_id='28E9:0189' if c['sched_seed'] % 3 == 0 else '28e9:0189')
     dev = r['device']
     payload = {'kind': 'dfu', 'params': c}
     why = None
